@@ -3,7 +3,7 @@
 //! cross validation is instrumented: it logs the row identifiers it is fitted on and echoes
 //! `fit_number*1000 + row id` as its prediction, so every prediction reveals which model
 //! produced it for which row.
-use crate::util::*;
+use vutil::*;
 use rand::Rng;
 use serde_json::{json, Value};
 use smartcore::api::Predictor;
@@ -184,7 +184,10 @@ const TS_TABLE: [f32; 14] = [
     0.125, 0.25, 0.375, 0.5, 0.625, 0.75, 0.875, 1.0, 0.2, 0.3, 0.7, 0.1, 0.33, 0.9,
 ];
 
-pub fn run(args: &[String]) {
+fn main() {
+    let args: Vec<String> = std::env::args().skip(1).collect();
+    let args = &args[..];
+    silence_panics();
     let mode = arg(args, 0);
     let path = arg(args, 1);
     let mut out = Out::create(path);
